@@ -1,9 +1,11 @@
 package rules
 
 import (
+	"fmt"
 	"go/ast"
 	"go/token"
 	"go/types"
+	"os"
 	"sort"
 	"strconv"
 	"strings"
@@ -440,4 +442,165 @@ func ruleDedupeExact(r *core.Reporter) {
 		}
 	}
 	r.Held("utils.DedupeStrings/key", len(keys), "lookup and record are keyed on the element itself")
+}
+
+func init() {
+	register(&core.Rule{ID: "R-BODY-REWIND", Props: []string{"C07", "C19"}, Doc: "the spooled body has one read cursor shared by every predicate and extractor that looks at it in turn (IsSitemapXML probes each page before the HTML arm): a module function that hands `X.GetBody()` to a reader or decoder rewinds it — `defer X.RewindBody()` before the read, or an explicit X.RewindBody() on every path from the read to a return. A missed rewind on an error path leaves the next extractor an empty or truncated document", Run: ruleBodyRewind})
+}
+
+func ruleBodyRewind(r *core.Reporter) {
+	p := r.P
+	getBody := p.Func(rel(pkgModels), "(*URL).GetBody")
+	rewind := p.Func(rel(pkgModels), "(*URL).RewindBody")
+	if getBody == nil || rewind == nil {
+		r.Undecided("models.URL.GetBody/RewindBody", "", "anchors not found")
+		return
+	}
+	n := 0
+	for _, fn := range p.ModFuncs {
+		if !core.InModule(fn) || fn == rewind || core.FuncPkg(fn) == nil {
+			continue
+		}
+		// ProcessBody fills the body and rewinds it itself; closeBody only closes
+		fn := fn
+		var reads []ssa.Instruction
+		var recvs []string
+		allInstrs(fn, func(in ssa.Instruction) {
+			c, ok := in.(*ssa.Call)
+			if !ok || c.Call.StaticCallee() != getBody {
+				return
+			}
+			for _, ref := range ir.Referrers(c) {
+				// handed to a call as an argument (decoder, ReadAll, NewDocumentFromReader …), possibly boxed
+				consider := func(use ssa.Instruction, v ssa.Value) {
+					uc := ir.AsCall(use)
+					if uc == nil {
+						return
+					}
+					if uc.IsInvoke() && uc.Value == v {
+						if uc.Method.Name() == "Close" || uc.Method.Name() == "Len" || uc.Method.Name() == "Seek" {
+							return
+						}
+						reads = append(reads, use)
+						recvs = append(recvs, ir.Path(c.Call.Args[0]))
+						return
+					}
+					for _, a := range uc.Args {
+						if a == v {
+							if callee := uc.StaticCallee(); callee != nil && callee.Name() == "SetBody" {
+								return
+							}
+							reads = append(reads, use)
+							recvs = append(recvs, ir.Path(c.Call.Args[0]))
+						}
+					}
+				}
+				if ci, isI := ref.(ssa.Instruction); isI {
+					consider(ci, c)
+				}
+				if mi, isMI := ref.(*ssa.MakeInterface); isMI {
+					for _, r2 := range ir.Referrers(mi) {
+						consider(r2, mi)
+					}
+				}
+				if ct, isCT := ref.(*ssa.ChangeInterface); isCT {
+					for _, r2 := range ir.Referrers(ct) {
+						consider(r2, ct)
+					}
+				}
+			}
+		})
+		for i, rd := range reads {
+			n++
+			r.Analysed(fn)
+			recv := recvs[i]
+			key := fmt.Sprintf("%s/rewind#%d", core.FuncName(fn), i+1)
+			isRewind := func(x ssa.Instruction) bool {
+				xc := ir.AsCall(x)
+				if xc == nil || xc.StaticCallee() != rewind {
+					return false
+				}
+				return ir.Path(xc.Args[0]) == recv
+			}
+			// deferred before the read?
+			deferred := false
+			allInstrs(fn, func(x ssa.Instruction) {
+				if d, isD := x.(*ssa.Defer); isD && isRewind(x) {
+					if !ir.Reach([]ir.Pt{ir.Entry(fn)}, ir.Opts{Stop: func(y ssa.Instruction) bool { return y == ssa.Instruction(d) }}).Reached[rd] {
+						deferred = true
+					}
+				}
+			})
+			if deferred {
+				r.Held(key, 1, "body read under a deferred RewindBody()")
+				continue
+			}
+			explicit := func(x ssa.Instruction) bool {
+				if _, isD := x.(*ssa.Defer); isD {
+					return false
+				}
+				return isRewind(x)
+			}
+			// reviewed table: readers whose error does not depend on the content
+			//   goquery.NewDocumentFromReader — x/net/html never rejects input, it fails only when the reader fails,
+			//   and a spooled body that cannot be read any more has no cursor worth restoring
+			type edge struct {
+				b *ssa.BasicBlock
+				s int
+			}
+			cut := map[edge]bool{}
+			if rc, isC := rd.(*ssa.Call); isC && ir.IsCallTo(rc, "github.com/PuerkitoBio/goquery.NewDocumentFromReader") {
+				isNil := errIsNilAtom(rc)
+				for _, ii := range ir.Ifs(fn) {
+					if isNil(ii.Atom) {
+						cut[edge{ii.If.Block(), ii.EdgeWhen(false)}] = true
+					}
+				}
+			}
+			ret, bad := ir.PathExists([]ir.Pt{ir.After(rd)}, ir.Opts{Stop: explicit, EdgeOK: func(b *ssa.BasicBlock, s int) bool { return !cut[edge{b, s}] }}, ir.IsExit)
+			if bad && len(fn.Params) > 0 && recv == "$"+fn.Params[0].Name() {
+				// an accessor on the URL itself (GetDocument): covered when every module caller reads under its own
+				// deferred RewindBody() of the same URL
+				callers, covered := 0, 0
+				for _, cf := range p.ModFuncs {
+					if !core.InModule(cf) {
+						continue
+					}
+					cf := cf
+					allInstrs(cf, func(x ssa.Instruction) {
+						xc := ir.AsCall(x)
+						if xc == nil || xc.StaticCallee() != fn || len(xc.Args) == 0 {
+							return
+						}
+						callers++
+						want := ir.Path(xc.Args[0])
+						ok := false
+						allInstrs(cf, func(y ssa.Instruction) {
+							if d, isD := y.(*ssa.Defer); isD && d.Call.StaticCallee() == rewind && ir.Path(d.Call.Args[0]) == want {
+								if !ir.Reach([]ir.Pt{ir.Entry(cf)}, ir.Opts{Stop: func(z ssa.Instruction) bool { return z == y }}).Reached[x] {
+									ok = true
+								}
+							}
+						})
+						if ok {
+							covered++
+						}
+					})
+				}
+				if os.Getenv("ZC_DEBUG_REWIND") != "" {
+					fmt.Fprintf(os.Stderr, "rewind debug: %s callers=%d covered=%d\n", core.FuncName(fn), callers, covered)
+				}
+				if callers > 0 && callers == covered {
+					r.Held(key, callers, "an error exit skips the rewind, but all %d caller(s) read under their own deferred RewindBody()", callers)
+					continue
+				}
+			}
+			if bad {
+				r.Violated(key, p.InstrPos(ret), "%s is read here (%s) and a path returns without RewindBody(): the cursor stays where the reader stopped (at EOF, or at a buffer boundary after a decoder error), and the next predicate or extractor that looks at the same body sees an empty or truncated document", recv+".GetBody()", p.InstrPos(rd))
+			} else {
+				r.Held(key, 1, "every path from the read to a return rewinds the body")
+			}
+		}
+	}
+	r.Floor("body reads in module code", n, 5)
 }
